@@ -763,7 +763,7 @@ func rule175(r *core.Run) {
 				}
 				for _, g := range core.GuardsOf(ret) {
 					gs := r.P.SliceOf(g.If.Cond, core.SliceOpts{Depth: -1})
-					isMeta := gs.Has("field:s3bolt.Backend.metaBucketName") && gs.Has("call:bytes.Equal")
+					isMeta := gs.Has("field:s3bolt.Backend.metaBucketName") && (gs.Has("call:bytes.Equal") || gs.Has("call:bytes.Compare"))
 					if !isMeta || gs.Has("call:builtin:len") {
 						bad = "InvalidBucketName returned at " + pos(r, ret) + " under a test that is not the bookkeeping-name comparison"
 					}
